@@ -246,12 +246,35 @@ package cputensor
 
 //@ define cidxOK(cidx, t) := len(cidx) == rank(t) && forall(k, 0, len(cidx), 0 <= cidx[k].From && cidx[k].From < cidx[k].To && cidx[k].To <= dim(t, k))
 
+// Sliced(s, d, R, sh, lo, hi): the tree d (levels lo..hi) is the window of the tree s selected by the ranges
+// R[lo+sh..hi+sh) (sh: constant offset of the range slice's backing array against the level numbering)
+//@ predicate Sliced(s Data, d Data, R RArr, sh Int, lo Int, hi Int) := ite(lo >= hi, isF(d) && fval(d) == fval(s), isS(d) && slen(d) == R[lo+sh].To - R[lo+sh].From
+//@              && forall(i, 0, R[lo+sh].To - R[lo+sh].From, Sliced(child(s, i + R[lo+sh].From), child(d, i), R, sh, lo+1, hi)))
+//@ define slicedWFBody(lo, hi) := forallD(s, forallD(d, forallRA(R, forallI(sh, forallJ(B, imp(Sliced(s, d, R, sh, lo, hi) && forall(k, lo, hi, B[k] == R[k+sh].To - R[k+sh].From), WF(d, B, lo, hi)))))))
+//@ induct slicedWF: slicedWFBody
+//@ define slicedElBody(lo, hi) := forallD(s, forallD(d, forallRA(R, forallI(sh, forallJ(A, forallJ(J, forallJ(K, imp(0 <= lo && Sliced(s, d, R, sh, lo, hi) && WF(s, A, lo, hi)
+//@              && forall(k, lo, hi, 0 <= R[k+sh].From && R[k+sh].To <= A[k] && 0 <= J[k] && J[k] < R[k+sh].To - R[k+sh].From && K[k] == J[k] + R[k+sh].From),
+//@              leafv(d, J, lo) == leafv(s, K, lo)))))))))
+//@ induct slicedEl: slicedElBody
+
 //@ func CPUTensor.copiedSliceOf
-//@   requires cidxOK(index, t)
-//@   assumed L2 tree recursion (copyData) over nested []any; bounded stand-in: rac TestSlicePatch
+//@   requires published(t) && cidxOK(index, t)
+//@   uses dimsLink, dataLink, slicedWF
+//@   have Sliced(t.data, o.data, arrOf(index), offOf(index), 0, rank(t)) && rank(o) == rank(t) && forall(k, 0, rank(t), dim(o, k) == index[k].To - index[k].From)
+//@   have forallJ(J, imp(inb(o, J), leafv(o.data, J, 0) == leafv(t.data, addFrom(J, index), 0))) @uses slicedEl
 //@   returns fresh
+//@   loop 0 invariant len(dims) == len(index) && forall(k, 0, _i0, dims[k] == index[k].To - index[k].From)
 //@   ensures o != nil && rank(o) == rank(t) && forall(k, 0, rank(t), dim(o, k) == index[k].To - index[k].From)
 //@   ensures forallJ(J, imp(inb(o, J), el(o, J) == el(t, addFrom(J, index))))
+
+// copyData of copiedSliceOf at level lo = len(t.dims) - len(index)
+//@ func CPUTensor.copiedSliceOf#0
+//@   requires src != nil && dst != nil && t != nil && published(t) && len(index) <= len(t.dims)
+//@   requires WF(*src, arrOf(t.dims), len(t.dims) - len(index), len(t.dims))
+//@   requires forall(k, 0, len(index), 0 <= index[k].From && index[k].From <= index[k].To && index[k].To <= t.dims[k + len(t.dims) - len(index)])
+//@   modifies *dst
+//@   ensures Sliced(*src, *dst, arrOf(index), offOf(index) - (len(t.dims) - len(index)), len(t.dims) - len(index), len(t.dims))
+//@   loop 0 invariant forall(j, 0, i, Sliced(srcRows[j + idx.From], dstRows[j], arrOf(index), offOf(index) - (len(t.dims) - len(index)), len(t.dims) - len(index), len(t.dims)))
 
 //@ func CPUTensor.copiedWithPatchOf
 //@   requires u != nil && rank(u) == rank(t) && len(index) == rank(t)
